@@ -126,11 +126,16 @@ func canonTo(b *strings.Builder, v types.MalType, depth int, errFn func(error) s
 		}
 		b.WriteString("}")
 	case types.MalFunc:
+		// parameters and body are lisp values too (code is data): print them, not an address
 		if x.IsMacro {
-			b.WriteString("#macro")
+			b.WriteString("#macro<")
 		} else {
-			b.WriteString("#fn")
+			b.WriteString("#fn<")
 		}
+		canonTo(b, x.Params, depth+1, errFn)
+		b.WriteByte(' ')
+		canonTo(b, x.Exp, depth+1, errFn)
+		b.WriteString(">")
 	case types.Func:
 		b.WriteString("#gofn")
 	case *concurrent.Atom:
